@@ -4,7 +4,7 @@ import TaskModel.Sched.MonC13
 /-!
 Sched.TermAll — termination of the executor model for ALL programs, cyclic or not.
 
-The call counter admits fewer than `maxCalls` activations of each task past `enter`
+The call counter lets fewer than `maxCalls` activations of each task past `enter`
 (`CallInv`); each of them pays, out of a per-task budget, for its own local steps and for
 the `enter` (and possible immediate `exit`) of each of its children.  The potential —
 calls of `Run` not yet entered, remaining budgets, remaining local steps and free child
